@@ -120,6 +120,34 @@ class BuildDirs:
             else:
                 return self._check_maybe_removed_dir(norm_cased_dir)
 
+    def is_dir_norm_case(self, norm_cased_dir):
+        """Return whether the specified directory exists.
+
+        Return whether the specified norm-cased filename refers to a
+        directory that is present in the virtual state of the file
+        system, excluding files created in the relevant instance of
+        ``CreatedFiles``. Unlike calling ``is_removed_norm_case``,
+        ``os.path.isdir``, and ``handle_norm_cased_dir_exists`` in
+        succession, this is atomic with respect to the other methods.
+        Otherwise, a directory that another thread virtually removes in
+        the meantime (due to an exception while building a file) could
+        wrongly be recorded as existing.
+        """
+        with self._lock:
+            if norm_cased_dir in self._build_dir_counts:
+                is_removed = False
+            elif norm_cased_dir in self._removed_dirs:
+                is_removed = True
+            elif norm_cased_dir not in self._maybe_removed_dirs:
+                is_removed = False
+            else:
+                is_removed = self._check_maybe_removed_dir(norm_cased_dir)
+
+            if is_removed or not os.path.isdir(norm_cased_dir):
+                return False
+            self._handle_dir_exists(norm_cased_dir)
+            return True
+
     def handle_norm_cased_dir_exists(self, norm_cased_dir):
         """Respond to the existence of the specified norm-cased directory.
 
